@@ -69,6 +69,15 @@ func hint(m protoreflect.Message, seed int) {
 	case "smartcore.traits.FanSpeed":
 		presets := []string{"low", "med", "high", "full"}
 		m.Set(m.Descriptor().Fields().ByName("preset"), protoreflect.ValueOfString(presets[seed%len(presets)]))
+	case "smartcore.traits.OpenClosePositions":
+		// a preset name must be one the model was configured with (the default model has none)
+		m.Clear(m.Descriptor().Fields().ByName("preset"))
+		// the generic generator leaves repeated fields empty; positions without a state change nothing
+		sf := m.Descriptor().Fields().ByName("states")
+		st := newOf(sf.Message())
+		st.Set(sf.Message().Fields().ByName("open_percent"), protoreflect.ValueOfFloat32(float32(seed%100)))
+		l := m.Mutable(sf).List()
+		l.Append(protoreflect.ValueOfMessage(st))
 	}
 }
 
@@ -198,13 +207,17 @@ func setMask(m protoreflect.Message, field string, paths ...string) {
 	}
 }
 
-func runCase(c tcase) (key, msg string, okUpdates int) {
+var lastRejection string // why the most recent generated update was refused (reported when none is accepted)
+
+func runCase(c tcase) (fails [][2]string, okUpdates int) {
 	se := reg.Servers[c.Server]
-	var fk, fm string
 	fail := func(k, m string) {
-		if fk == "" {
-			fk, fm = k, m
+		for _, f := range fails {
+			if f[0] == k {
+				return
+			}
 		}
+		fails = append(fails, [2]string{k, m})
 	}
 	res := verifrt.RunOnce(nil, false, func() {
 		server := se.New()
@@ -306,8 +319,8 @@ func runCase(c tcase) (key, msg string, okUpdates int) {
 					return
 				}
 			} else if len(st.got) != 1 || !proto.Equal(st.got[0], cur) {
+				// reported, but the history goes on: what the stream does with later updates is a separate clause
 				fail("pull-initial", fmt.Sprintf("a new Pull must start with the current value %v, got %v", cur, st.got))
-				return
 			}
 			st.got, st.names = nil, nil
 		}
@@ -330,6 +343,7 @@ func runCase(c tcase) (key, msg string, okUpdates int) {
 				return
 			}
 			if uerr != nil {
+				lastRejection = uerr.Error()
 				if !proto.Equal(after, cur) {
 					fail("rejected-update-changed-value", fmt.Sprintf("%s returned %v but Get changed from %v to %v", t.upd.full(), uerr, cur, after))
 					return
@@ -388,10 +402,10 @@ func runCase(c tcase) (key, msg string, okUpdates int) {
 			}
 		}
 	})
-	if fk == "" && res.Status != "ok" {
-		return res.Status, res.Msg, okUpdates
+	if len(fails) == 0 && res.Status != "ok" {
+		return [][2]string{{res.Status, res.Msg}}, okUpdates
 	}
-	return fk, fm, okUpdates
+	return fails, okUpdates
 }
 
 func topFields(md protoreflect.MessageDescriptor) []string {
@@ -411,8 +425,9 @@ func main() {
 	h.Seq("servers", func(s *hx.Seq) {
 		var rc tcase
 		if s.Replaying(&rc) {
-			if k, m, _ := runCase(rc); k != "" {
-				s.Fail(k, m, rc)
+			fs, _ := runCase(rc)
+			for _, f := range fs {
+				s.Fail(f[0], f[1], rc)
 			}
 			return
 		}
@@ -454,15 +469,15 @@ func main() {
 								}
 								s.Eval(1)
 								s.Trans(n)
-								k, m, ok := runCase(c)
+								fs, ok := runCase(c)
 								if ok < 0 {
 									s.Note("%s %s: Get is Unimplemented, not a Get/Update/Pull resource of this server", se.Name, t.noun)
 									okSeen = 1
 									goto nextTriple
 								}
 								okSeen += ok
-								if k != "" {
-									s.Fail(fmt.Sprintf("%s %s %s", k, se.Name, t.noun), m+fmt.Sprintf(" (updates=%v masks=%v streams=%d)", c.Updates, c.Masks, c.Streams), c)
+								for _, f := range fs {
+									s.Fail(fmt.Sprintf("%s %s %s", f[0], se.Name, t.noun), f[1]+fmt.Sprintf(" (updates=%v masks=%v streams=%d)", c.Updates, c.Masks, c.Streams), c)
 								}
 								s.State(fmt.Sprint(se.Name, t.noun, c.Masks, streams, n))
 								if ok > 0 {
@@ -474,7 +489,7 @@ func main() {
 				}
 			nextTriple:
 				if okSeen == 0 {
-					s.Note("%s %s: no generated update was accepted by the server (only the rejected-update clause was exercised)", se.Name, t.noun)
+					s.Note("%s %s: no generated update was accepted by the server (only the rejected-update clause was exercised; last refusal: %s)", se.Name, t.noun, lastRejection)
 				}
 				if s.Stop() {
 					return
